@@ -22,7 +22,7 @@ import tempfile
 from concurrent.futures import ThreadPoolExecutor
 
 from harness import absprog, project_ir
-from harness.absprog import BITS, TYPES, is_signed, trange
+from harness.absprog import BITS, TYPES10 as TYPES, flat_fields, is_signed, trange
 from harness.tlc import MachineryError
 
 SRC_CFG = """INIT RInit
@@ -42,16 +42,22 @@ INVARIANT SrcSameCalls
 logging.getLogger().addHandler(logging.NullHandler())   # ppci warns through logging; keep the check's output clean
 IR_INT = {"i8": 1, "u8": 1, "i16": 2, "u16": 2, "i32": 4, "u32": 4, "i64": 8, "u64": 8}
 WORKERS = 8
-QUICK_PROBES = 600            # sampled probes in the quick tier (plus the sentinels); thorough runs all of them
+QUICK_PROBES = 500            # sampled probes in the quick tier (plus the sentinels); thorough runs all of them
 QUICK_PROBE_VECTORS = 4
 QUICK_PROGRAMS = 50
 THOROUGH_PROBE_VECTORS = 8
-# probes that are always run with all their vectors: they decide which construct classes the random programs avoid
+SENTINEL_VECTORS = 24
+# probes that are always run, with 24 vectors: they decide which construct classes the random programs avoid
 SENTINELS = {"bin:<:c8,u8", "bin:>=:i16,u16", "bin:==:c8,u16", "unary:-:u8", "unary:~:u16", "unary:-:c8",
              "bin:<<:u32,i64", "type-of:<<:i32,u64", "type-of:>>:u16,u32",
              "compound:/=:lhs=u8,rhs=i32", "compound:%=:lhs=i16,rhs=u32", "compound:>>=:lhs=u8,rhs=i32",
              "compound-mem:<<=:lhs=u16,rhs=i32", "compound:/=:lhs=i32,rhs=u32", "compound:+=:lhs=u8,rhs=i32",
-             "literal:i32:2147483648", "literal:i32:4294967296", "literal:u32:4294967295"}
+             "literal:i32:2147483648", "literal:i32:4294967296", "literal:u32:4294967295",
+             # a signed type of higher rank meeting an unsigned type of equal size (long long with unsigned long)
+             "bin:<:i64,ul", "bin:/:ul,i64", "bin:>>:i64,ul", "type-of:+:i64,ul", "type-of:%:ul,i64", "type-of:cond:i64,ul",
+             "type-of:+:il,u32", "type-of:*:il,ul", "type-of:-:u32,i64", "cond:ul,i64", "compound:/=:lhs=i64,rhs=ul",
+             "struct-layout:0:all", "struct-layout:anon:0:all", "struct-layout:anon:1:odd", "struct-layout:anon:2:all",
+             "struct-layout:anon:3:odd", "struct-layout:anon-tail:0:all", "struct-layout:anon-tail:1:odd"}
 
 
 # ------------------------------------------------------------------ AST helpers for the systematic probes
@@ -175,7 +181,8 @@ def probes():
     # literal typing by suffix and magnitude (6.4.4.1: decimal constants without suffix are int, long, long long)
     for ty, v in (("i32", 2147483647), ("i32", 2147483648), ("i32", 4294967296), ("u32", 4294967295), ("u32", 4294967296),
                   ("i64", 9223372036854775807), ("u64", 18446744073709551615), ("u32", 0), ("i64", 1), ("u64", 2),
-                  ("i32", 4294967295), ("i32", 9223372036854775807), ("i64", 2147483648), ("u64", 4294967296)):
+                  ("i32", 4294967295), ("i32", 9223372036854775807), ("i64", 2147483648), ("u64", 4294967296),
+                  ("il", 1), ("il", 9223372036854775807), ("ul", 2), ("ul", 18446744073709551615)):
         yield ("literal:%s:%d" % (ty, v),
                PROG([FN("f", "u64", [("a", "i32")], [RET(B("+", type_reveal(L(v, ty)), B("*", V("a"), L(0))))])]), True)
         yield ("literal-value:%s:%d" % (ty, v),
@@ -189,16 +196,35 @@ def probes():
         yield ("switch:%s" % ta,
                PROG([FN("f", "u64", [("a", ta)], [{"k": "decl", "n": "r", "ty": "i32", "e": L(0)},
                                                    {"k": "switch", "e": V("a"), "cases": cases}, RET(V("r"))])]), True)
-    # struct layout: members of mixed size, each written and read back; observed per member in global memory
-    for k, tys in enumerate((["c8", "i32", "u8", "i64", "i16"], ["u16", "u8", "u64", "c8", "u32", "i16"],
-                             ["i64", "c8", "i16", "u32"], ["u8", "u16", "u8", "u8", "i32"])):
-        fl = [{"f": "m%d" % j, "ty": t} for j, t in enumerate(tys)]
-        body = [ASG({"k": "fld", "s": "gs", "f": "m%d" % j}, B("+", V("a"), L(j))) for j in range(len(tys))]
+    # struct layout: members of mixed size, anonymous struct members in the middle and at the end; every member is
+    # written and read back, and observed (with its neighbours) in global memory
+    A = lambda *tys: {"anon": list(tys)}      # noqa: E731
+    layouts = [("0", ["c8", "i32", "u8", "i64", "i16"]), ("1", ["u16", "u8", "u64", "c8", "u32", "i16"]),
+               ("2", ["i64", "c8", "i16", "u32"]), ("3", ["u8", "u16", "u8", "u8", "i32"]),
+               # anonymous structs whose size is a multiple of their alignment
+               ("anon:0", ["c8", A("i32", "i16", "u16"), "u8", "i64"]), ("anon:1", ["u16", "u8", A("u8", "c8"), A("i64"), "c8"]),
+               ("anon:2", ["i32", A("u16", "c8", "u8", "i32"), "i16", A("c8"), "u32"]), ("anon:3", ["il", "c8", A("ul", "i64"), "u8"]),
+               # anonymous structs that need tail padding
+               ("anon-tail:0", ["c8", A("i32", "c8"), "u8", "i64"]), ("anon-tail:1", ["u8", A("i64", "i16"), "c8", A("u16", "u8"), "u8"])]
+    for name, tys in layouts:
+        fl, k = [], 0
+        for t in tys:
+            if isinstance(t, dict):
+                sub = []
+                for x in t["anon"]:
+                    sub.append({"f": "m%d" % k, "ty": x})
+                    k += 1
+                fl.append({"anon": sub})
+            else:
+                fl.append({"f": "m%d" % k, "ty": t})
+                k += 1
+        body = [ASG({"k": "fld", "s": "gs", "f": "m%d" % j}, B("+", V("a"), L(j))) for j in range(k)]
         e = L(0)
-        for j in range(len(tys)):
+        for j in range(k):
             e = B("^", e, {"k": "fld", "s": "gs", "f": "m%d" % j})
-        yield ("struct-layout:%d" % k,
-               PROG([FN("f", "u64", [("a", "u8")], body + [RET(e)])], [{"n": "gs", "struct": fl, "init": list(range(1, len(tys) + 1))}]), True)
+        for variant, stmts in (("all", body), ("odd", body[1::2])):
+            yield ("struct-layout:%s:%s" % (name, variant),
+                   PROG([FN("f", "u64", [("a", "u8")], stmts + [RET(e)])], [{"n": "gs", "struct": fl, "init": list(range(1, k + 1))}]), True)
 
 
 def probe_vectors(f, small_b, rng, n):
@@ -246,7 +272,7 @@ def random_items(ctx, n, nvec, classes=()):
     for _ in range(n):
         seed = ctx.rng.randrange(1 << 30)
         prng = random.Random(seed)
-        gen = absprog.Gen(prng, max_funcs=3, max_stmts=6, max_depth=3, features=absprog.C01_FEATURES)
+        gen = absprog.Gen(prng, max_funcs=3, max_stmts=6, max_depth=3, types=TYPES, features=absprog.C01_FEATURES)
         prog = gen.program()
         if classes:
             prog = absprog.sanitize(prog, classes)
@@ -370,7 +396,7 @@ def src_lines(it, o):
     for g in prog["globals"]:
         ents = gl.get(g["n"], [])
         if "struct" in g:
-            for m, e in zip(g["struct"], ents):
+            for m, e in zip(flat_fields(g), ents):
                 out.append("G %s.%s %d" % (g["n"], m["f"], decode(e["bytes"], is_signed(m["ty"]))))
         elif g.get("len"):
             n = BITS[g["ty"]] // 8
@@ -395,10 +421,11 @@ def gcc_outputs(it, wd, vec_idx=None):
         outs = {}
         for k in (range(len(it["vecs"])) if vec_idx is None else sorted(vec_idx)):
             try:
-                p = subprocess.run([exe, str(k)], capture_output=True, text=True, timeout=10)
-                outs[k] = (p.returncode, p.stdout.splitlines())
+                p = subprocess.run([exe, str(k)], capture_output=True, text=True, timeout=60)
+                if p.returncode == 0 or "runtime error" in p.stderr:
+                    outs[k] = (p.returncode, p.stdout.splitlines())
             except subprocess.TimeoutExpired:
-                outs[k] = (-1, [])
+                pass        # overloaded machine: no reference answer for this vector
         return outs
     except (OSError, subprocess.TimeoutExpired):
         return None
@@ -537,6 +564,21 @@ def micro_programs():
                                                                   ASG(V("r"), L(1), "+=")]},
                   RET(V("r"))])]),
         [([1], "ok", 222), ([2], "ok", 2010), ([7], "ok", 10), ([3], "ok", 202), ([-1], "ok", 202)])
+    # a switch nested in the body of another one, followed by further case / default labels of the outer switch
+    inner = {"k": "switch", "e": V("b"),
+             "cases": [{"v": 11, "b": [ASG(V("r"), L(1), "+=")], "brk": True},       # labels disjoint from the outer ones
+                       {"v": None, "b": [ASG(V("r"), L(2), "+=")], "brk": False},
+                       {"v": 13, "b": [ASG(V("r"), L(4), "+=")], "brk": True}]}
+    outer = [{"v": 1, "b": [ASG(V("r"), L(10), "+="), inner], "brk": False},
+             {"v": 2, "b": [ASG(V("r"), L(20), "+=")], "brk": True},
+             {"v": 3, "b": [ASG(V("r"), L(30), "+=")], "brk": True},
+             {"v": None, "b": [ASG(V("r"), L(40), "+="), dict(inner)], "brk": False},
+             {"v": 5, "b": [ASG(V("r"), L(50), "+=")], "brk": True}]
+    add("nested-switch",
+        PROG([FN("f", "i32", [("a", "i32"), ("b", "u8")],
+                 [DECL("r", "i32", L(0)), {"k": "switch", "e": V("a"), "cases": outer}, RET(V("r"))])]),
+        [([1, 11], "ok", 31), ([1, 13], "ok", 34), ([1, 9], "ok", 36), ([2, 11], "ok", 20), ([3, 11], "ok", 30), ([3, 13], "ok", 30),
+         ([5, 0], "ok", 50), ([4, 11], "ok", 91), ([9, 2], "ok", 96), ([-1, 13], "ok", 94)])
     # calls: sequenced calls are fine, two calls that write the same global in one expression are not
     gfun = FN("g", "i32", [("x", "i32")], [ASG(V("gv"), B("+", V("gv"), V("x"))), RET(V("gv"))])
     GV = [{"n": "gv", "ty": "i32", "len": 0, "init": [1]}]
@@ -697,7 +739,7 @@ class Engine:
                  "type of their result, 10 compound assignments on locals and on array elements, ++/--, unary operators, casts, "
                  "conversion on return / initialisation / argument passing / store, ?:, p[i] and a[i] with every index type, literal "
                  "typing, switch on every type, struct layouts) on boundary-value argument vectors (quick: the sentinel probes + a seeded "
-                 "sample of 600 of the probes, 4 vectors each; thorough: all probes, 8 vectors each).  Stage 2, random programs of "
+                 "sample of 500 of the probes, 4 vectors each; thorough: all probes, 8 vectors each).  Stage 2, random programs of "
                  "harness/absprog.py (functions, loops, switch, arrays, structs, pointers into arrays, calls, external calls; 50 x 6 "
                  "vectors quick, 200 x 8 thorough), generated without the construct classes whose probes failed in stage 1.  Every "
                  "(program, vector) is executed by TLC under Src.tla; those ending 'ok' are compared by TLC with the execution of ppci's "
@@ -714,14 +756,15 @@ class Engine:
             chosen = allp
         else:
             # quick: the sentinels (one or two per construct class that the random stage may have to avoid)
-            # with all their vectors + a seeded sample of the rest; the thorough tier runs every probe
+            # with 24 vectors + a seeded sample of the rest; the thorough tier runs every probe
             rest = [p for p in allp if p[0] not in SENTINELS]
             chosen = [p for p in allp if p[0] in SENTINELS] + \
                      [rest[k] for k in sorted(ctx.rng.sample(range(len(rest)), min(QUICK_PROBES, len(rest))))]
         items = []
         for key, prog, small in chosen:
             f = [x for x in prog["funcs"] if x["n"] == prog["main"]][0]
-            n = None if key in SENTINELS or len(f["params"]) < 2 else (THOROUGH_PROBE_VECTORS if thorough else QUICK_PROBE_VECTORS)
+            n = None if len(f["params"]) < 2 else SENTINEL_VECTORS if key in SENTINELS else \
+                (THOROUGH_PROBE_VECTORS if thorough else QUICK_PROBE_VECTORS)
             items.append(make_item(key, prog, probe_vectors(f, small, ctx.rng, n), [], "probe"))
         # the hand-written micro programs of the model check are also judged against ppci (loops, switch, calls, ...)
         for name, prog, runs, ext, _ in micro_programs():
